@@ -900,6 +900,15 @@ pub fn generate_c16(tier: &str, seed: u64, out: &mut Out) {
                         &[row.id.clone(), "lossless".into(), c[0].clone(), c[1].clone(), c[2].clone(), elist(&pk), elist(&pv), es(&render_prior(prior, comments))],
                     );
                 }
+                // the same prior text without its final newline: a field appended by the update must
+                // not be glued onto the unterminated last line
+                let t = render_prior(prior, false);
+                if t.ends_with('\n') && !prior.is_empty() {
+                    out.req(
+                        "derive.update",
+                        &[row.id.clone(), "lossless".into(), c[0].clone(), c[1].clone(), c[2].clone(), elist(&pk), elist(&pv), es(&t[..t.len() - 1])],
+                    );
+                }
             }
         };
         // 1 every field present, each variant of the pools
